@@ -412,7 +412,14 @@ def unit_d2o(kind, key):
     for vname, enc_ent in variants:
         e = enc_ent or ent
         fields = e["fields"]
-        for ccn2 in (["GetRandom", "Create", "FirmwareRead"] if kind == "frame" else [None]):
+        # value shapes: opaque leaves, and the empty containers that a part without fields / a list without elements
+        # rebuilds to (round 13: an empty parameter area of a command was turned into "absent")
+        for ccn2, shape in [(c, s) for c in (["GetRandom", "Create", "FirmwareRead"] if kind == "frame" else [None])
+                            for s in ("", "empty-dict", "empty-list")]:
+            if shape:
+                vname = vname.split("+")[0] + "+" + shape
+            else:
+                vname = vname.split("+")[0]
             ctx = Ctx()
             calls = []
             real_to_obj = O._to_obj
@@ -430,7 +437,7 @@ def unit_d2o(kind, key):
                 elif f["type"] == "None":
                     continue
                 else:
-                    v = object()
+                    v = {"": object, "empty-dict": dict, "empty-list": list}[shape]()
                 vals[f["name"]] = v
                 d[f["name"]] = v
             cc = W.cc_member(ccn2) if ccn2 else None
